@@ -6,15 +6,12 @@ import Hts.Model.BgzfBytes
 namespace Hts.Lemmas.BgzfBytes
 open Hts.Model.BgzfBytes
 
-/-! ### A BGZF member as bgzf.Writer lays it out (18-byte header, deflate data, 8-byte trailer) -/
+/-! ### A BGZF member: gzip header (any layout compress/gzip reads and that announces the member size
+in a BC subfield), deflate data, 8-byte trailer -/
 
 structure Member where
-  m0 : UInt8
-  m1 : UInt8
-  m2 : UInt8
-  m3 : UInt8
-  xfl : UInt8
-  os : UInt8
+  /-- the complete gzip header of the member -/
+  header : Bytes
   /-- the deflate stream -/
   cdata : Bytes
   /-- CRC-32 field of the trailer (4 bytes) -/
@@ -24,83 +21,101 @@ structure Member where
   /-- what the member holds -/
   payload : Bytes
 
+/-- `hdr` is a gzip header that `readHeader` reads completely whatever follows it, whose Extra field
+makes `expectedMemberSize` announce `size`; and every proper prefix of it is a short read (the empty
+one the clean `io.EOF`, every other `io.ErrUnexpectedEOF`).  `canonHeader_ok` (the 18-byte header
+bgzf.Writer writes by default) and `hdr18_ok` (the same with any FLG that keeps FEXTRA and adds only
+FTEXT/reserved bits, and any BSIZE) are the proved instances; for a header with user Extra, Name or
+Comment it is a hypothesis (such headers are covered by the enumeration, stream "named-header"). -/
+structure HeaderOk (crc : Bytes → Nat) (hdr : Bytes) (size : Nat) : Prop where
+  reads : ∀ t, ∃ h, readHeader crc (hdr ++ t) = .ok (h, hdr.length) ∧ expectedMemberSize h.extra = some size
+  cut : ∀ k, k < hdr.length → readHeader crc (hdr.take k) = .error (if k = 0 then .eof else .unexpectedEOF)
+
 namespace Member
 
-def size (m : Member) : Nat := 18 + m.cdata.length + 8
-
-def bsizeLo (m : Member) : UInt8 := UInt8.ofNat ((m.size - 1) % 256)
-def bsizeHi (m : Member) : UInt8 := UInt8.ofNat ((m.size - 1) / 256)
-
-def header (m : Member) : Bytes :=
-  [0x1f, 0x8b, 0x08, 0x04, m.m0, m.m1, m.m2, m.m3, m.xfl, m.os, 0x06, 0x00, 0x42, 0x43, 0x02, 0x00,
-   m.bsizeLo, m.bsizeHi]
+def size (m : Member) : Nat := m.header.length + m.cdata.length + 8
 
 def body (m : Member) : Bytes := m.cdata ++ (m.crc ++ m.isize)
 
 def bytes (m : Member) : Bytes := m.header ++ m.body
 
-/-- Well-framed with respect to the codec: the trailer fields have 4 bytes each and carry CRC-32 and
-length of the payload, the deflate decoder decodes `cdata` (followed by the trailer) to the payload
-using exactly `cdata`, the member fits the 16-bit BSIZE field and the payload fits a block. -/
-structure WellFramed (c : Codec) (m : Member) : Prop where
+/-- Framed with respect to the codec: the header is a gzip header announcing exactly the member's
+size, the trailer fields have 4 bytes each and carry CRC-32 and length of the payload, the deflate
+decoder decodes `cdata` (followed by the trailer) to the payload using exactly `cdata`.
+(Nothing about the size of the payload.) -/
+structure FramedOk (c : Codec) (m : Member) : Prop where
+  hdrOk : HeaderOk c.crc32 m.header m.size
   crcLen : m.crc.length = 4
   isizeLen : m.isize.length = 4
-  sizeOk : m.size ≤ 65536
   inflates : c.inflate m.body = .ok m.payload m.cdata.length
   crcOk : leNat m.crc = c.crc32 m.payload
   isizeOk : leNat m.isize = m.payload.length % 4294967296
+
+/-- Well-framed: framed, and the payload fits a block (at most 64 KiB, as the format requires). -/
+structure WellFramed (c : Codec) (m : Member) : Prop extends FramedOk c m where
   fits : m.payload.length ≤ MaxBlockSize
 
-theorem header_length (m : Member) : m.header.length = 18 := rfl
-
-theorem body_length {c : Codec} {m : Member} (h : m.WellFramed c) : m.body.length = m.cdata.length + 8 := by
+theorem body_length {c : Codec} {m : Member} (h : m.FramedOk c) : m.body.length = m.cdata.length + 8 := by
   simp [body, h.crcLen, h.isizeLen]
 
-theorem bytes_length {c : Codec} {m : Member} (h : m.WellFramed c) : m.bytes.length = m.size := by
-  simp [bytes, header_length, body_length h, size]; omega
-
-theorem bsize_eq {c : Codec} {m : Member} (h : m.WellFramed c) :
-    m.bsizeLo.toNat + 256 * m.bsizeHi.toNat + 1 = m.size := by
-  have h1 := h.sizeOk
-  have h2 : 26 ≤ m.size := by simp [size]
-  simp only [bsizeLo, bsizeHi, UInt8.toNat_ofNat']
-  omega
+theorem bytes_length {c : Codec} {m : Member} (h : m.FramedOk c) : m.bytes.length = m.size := by
+  simp [bytes, body_length h, size]; omega
 
 end Member
 
-/-! ### gzip header of a member -/
+/-! ### the 18-byte header bgzf.Writer writes by default -/
 
-def memberGzHeader (m : Member) : GzHeader :=
-  ⟨0x04, leNat [m.m0, m.m1, m.m2, m.m3], m.xfl, m.os, some [0x42, 0x43, 0x02, 0x00, m.bsizeLo, m.bsizeHi], [], []⟩
+/-- `1f 8b 08 04 MTIME XFL OS 06 00 'B' 'C' 02 00 BSIZE` for a member of `size` bytes -/
+def canonHeader (m0 m1 m2 m3 xfl os : UInt8) (size : Nat) : Bytes :=
+  [0x1f, 0x8b, 0x08, 0x04, m0, m1, m2, m3, xfl, os, 0x06, 0x00, 0x42, 0x43, 0x02, 0x00,
+   UInt8.ofNat ((size - 1) % 256), UInt8.ofNat ((size - 1) / 256)]
 
-theorem readHeader_member (crc : Bytes → Nat) (m : Member) (t : Bytes) :
-    readHeader crc (m.header ++ t) = .ok (memberGzHeader m, 18) := by
+theorem canonHeader_length (m0 m1 m2 m3 xfl os : UInt8) (size : Nat) :
+    (canonHeader m0 m1 m2 m3 xfl os size).length = 18 := rfl
+
+theorem bsize_bytes {size : Nat} (h1 : 1 ≤ size) (h2 : size ≤ 65536) :
+    (UInt8.ofNat ((size - 1) % 256)).toNat + 256 * (UInt8.ofNat ((size - 1) / 256)).toNat + 1 = size := by
+  simp only [UInt8.toNat_ofNat']
+  omega
+
+theorem canonHeader_ok (crc : Bytes → Nat) (m0 m1 m2 m3 xfl os : UInt8) {size : Nat}
+    (h1 : 1 ≤ size) (h2 : size ≤ 65536) : HeaderOk crc (canonHeader m0 m1 m2 m3 xfl os size) size := by
   have f8 : ((4 : UInt8) &&& 8 != 0) = false := by decide
   have f16 : ((4 : UInt8) &&& 16 != 0) = false := by decide
   have f2 : ((4 : UInt8) &&& 2 != 0) = false := by decide
-  have hl : ¬ (t.length + 1 + 1 + 1 + 1 + 1 + 1 < 6) := by omega
-  simp [readHeader, readExtra, readHdrCrc, Member.header, flagSet, readOptString, memberGzHeader, f8, f16, f2, hl]
-
-theorem expectedMemberSize_member (m : Member) :
-    expectedMemberSize (memberGzHeader m).extra = some (m.bsizeLo.toNat + 256 * m.bsizeHi.toNat + 1) := by
-  simp [expectedMemberSize, memberGzHeader, findSub, bgzfExtraPrefix, List.isPrefixOf]
+  constructor
+  · intro t
+    have hl : ¬ (t.length + 1 + 1 + 1 + 1 + 1 + 1 < 6) := by omega
+    refine ⟨⟨0x04, leNat [m0, m1, m2, m3], xfl, os,
+      some [0x42, 0x43, 0x02, 0x00, UInt8.ofNat ((size - 1) % 256), UInt8.ofNat ((size - 1) / 256)], [], []⟩, ?_, ?_⟩
+    · simp [readHeader, readExtra, readHdrCrc, canonHeader, flagSet, readOptString, f8, f16, f2, hl]
+    · simp [expectedMemberSize, findSub, bgzfExtraPrefix, List.isPrefixOf]
+      omega
+  · intro k hk
+    have hk' : k < 18 := hk
+    have : k = 0 ∨ k = 1 ∨ k = 2 ∨ k = 3 ∨ k = 4 ∨ k = 5 ∨ k = 6 ∨ k = 7 ∨ k = 8 ∨ k = 9 ∨ k = 10 ∨ k = 11
+        ∨ k = 12 ∨ k = 13 ∨ k = 14 ∨ k = 15 ∨ k = 16 ∨ k = 17 := by omega
+    rcases this with rfl | rfl | rfl | rfl | rfl | rfl | rfl | rfl | rfl | rfl | rfl | rfl | rfl | rfl | rfl | rfl | rfl | rfl <;>
+      simp [readHeader, readExtra, canonHeader, flagSet, f8, f16, f2]
 
 /-! ### an intact member is framed, verified and delivered -/
 
-theorem readMember_member (q : Quirks) (c : Codec) {m : Member} (h : m.WellFramed c) (t : Bytes) :
-    readMember q c (m.bytes ++ t) = .ok ⟨memberGzHeader m, m.body, t⟩ := by
+theorem readMember_member (q : Quirks) (c : Codec) {m : Member} (h : m.FramedOk c) (t : Bytes) :
+    ∃ hd, readMember q c (m.bytes ++ t) = .ok ⟨hd, m.body, t⟩ := by
   have hb := Member.body_length h
+  obtain ⟨hd, hr, hs⟩ := h.hdrOk.reads (m.body ++ t)
+  refine ⟨hd, ?_⟩
   have e : m.bytes ++ t = m.header ++ (m.body ++ t) := by simp [Member.bytes]
-  have hd : (m.header ++ (m.body ++ t)).drop 18 = m.body ++ t := by
-    rw [List.drop_left' (Member.header_length m)]
-  have hsz : m.size - 18 = m.body.length := by simp [Member.size, hb]; omega
-  have h1 : ¬ m.size = 18 := by simp [Member.size]; omega
-  have h2 : ¬ m.size < 18 := by simp [Member.size]; omega
-  rw [readMember, e, readHeader_member]
-  simp only [expectedMemberSize_member, Member.bsize_eq h, h1, h2, if_false, hd, hsz]
+  have hdrop : (m.header ++ (m.body ++ t)).drop m.header.length = m.body ++ t := List.drop_left
+  have hsz : m.size - m.header.length = m.body.length := by simp [Member.size, hb]; omega
+  have h1 : ¬ m.size = m.header.length := by simp [Member.size]; omega
+  have h2 : ¬ m.size < m.header.length := by simp [Member.size]; omega
+  rw [readMember, e, hr]
+  simp only [hs, h1, h2, if_false, hdrop, hsz]
   simp
 
-theorem gzBody_member (c : Codec) {m : Member} (h : m.WellFramed c) : gzBody c m.body = .ok m.payload := by
+theorem gzBody_member (c : Codec) {m : Member} (h : m.FramedOk c) :
+    gzBody c m.body = .ok (m.payload, !m.payload.isEmpty) := by
   have hd : m.body.drop m.cdata.length = m.crc ++ m.isize := by
     simp [Member.body]
   have t4 : (m.crc ++ m.isize).take 4 = m.crc := List.take_left' h.crcLen
@@ -116,44 +131,40 @@ theorem gzBody_member (c : Codec) {m : Member} (h : m.WellFramed c) : gzBody c m
 theorem readBlock_member (q : Quirks) (c : Codec) {m : Member} (h : m.WellFramed c) (t : Bytes) :
     readBlock q c (m.bytes ++ t) = .ok (m.payload, t) := by
   have := h.fits
-  simp [readBlock, readMember_member q c h t, gzBody_member c h]
-  omega
+  obtain ⟨hd, hr⟩ := readMember_member q c h.toFramedOk t
+  simp [readBlock, readToEOF, hr, gzBody_member c h.toFramedOk, this]
 
 /-! ### a cut member: every proper prefix of a member is rejected, and only the empty one cleanly -/
 
-theorem readHeader_member_prefix (crc : Bytes → Nat) (m : Member) (k : Nat) (hk : k < 18) :
-    readHeader crc (m.header.take k) = .error (if k = 0 then .eof else .unexpectedEOF) := by
-  have f8 : ((4 : UInt8) &&& 8 != 0) = false := by decide
-  have f16 : ((4 : UInt8) &&& 16 != 0) = false := by decide
-  have f2 : ((4 : UInt8) &&& 2 != 0) = false := by decide
-  have : k = 0 ∨ k = 1 ∨ k = 2 ∨ k = 3 ∨ k = 4 ∨ k = 5 ∨ k = 6 ∨ k = 7 ∨ k = 8 ∨ k = 9 ∨ k = 10 ∨ k = 11
-      ∨ k = 12 ∨ k = 13 ∨ k = 14 ∨ k = 15 ∨ k = 16 ∨ k = 17 := by omega
-  rcases this with rfl | rfl | rfl | rfl | rfl | rfl | rfl | rfl | rfl | rfl | rfl | rfl | rfl | rfl | rfl | rfl | rfl | rfl <;>
-    simp [readHeader, readExtra, readHdrCrc, Member.header, flagSet, readOptString, f8, f16, f2]
-
-theorem readMember_member_prefix (c : Codec) {m : Member} (h : m.WellFramed c) (k : Nat) (hk : k < m.size) :
+theorem readMember_member_prefix (c : Codec) {m : Member} (h : m.FramedOk c) (k : Nat) (hk : k < m.size) :
     readMember .repaired c (m.bytes.take k) = .error (if k = 0 then .eof else .unexpectedEOF) := by
-  by_cases h18 : k < 18
+  by_cases hh : k < m.header.length
   · have e : m.bytes.take k = m.header.take k := by
-      rw [Member.bytes, List.take_append_of_le_length (by rw [Member.header_length]; omega)]
-    rw [readMember, e, readHeader_member_prefix c.crc32 m k h18]
+      rw [Member.bytes, List.take_append_of_le_length (by omega)]
+    rw [readMember, e, h.hdrOk.cut k hh]
   · have hb := Member.body_length h
-    have e : m.bytes.take k = m.header ++ m.body.take (k - 18) := by
-      rw [Member.bytes, List.take_append, Member.header_length,
-        List.take_of_length_le (by rw [Member.header_length]; omega)]
-    have hd : (m.header ++ m.body.take (k - 18)).drop 18 = m.body.take (k - 18) := by
-      rw [List.drop_left' (Member.header_length m)]
-    have h1 : ¬ m.size = 18 := by simp [Member.size]; omega
-    have h2 : ¬ m.size < 18 := by simp [Member.size]; omega
-    have hlen : ¬ ((m.body.take (k - 18)).length ≥ m.size - 18) := by
+    obtain ⟨hd, hr, hs⟩ := h.hdrOk.reads (m.body.take (k - m.header.length))
+    have e : m.bytes.take k = m.header ++ m.body.take (k - m.header.length) := by
+      rw [Member.bytes, List.take_append, List.take_of_length_le (by omega)]
+    have hdrop : (m.header ++ m.body.take (k - m.header.length)).drop m.header.length
+        = m.body.take (k - m.header.length) := List.drop_left
+    have h1 : ¬ m.size = m.header.length := by simp [Member.size]; omega
+    have h2 : ¬ m.size < m.header.length := by simp [Member.size]; omega
+    have hlen : ¬ ((m.body.take (k - m.header.length)).length ≥ m.size - m.header.length) := by
       simp only [List.length_take, hb, Member.size] at hk ⊢
       omega
-    have hk0 : ¬ k = 0 := by omega
-    rw [readMember, e, readHeader_member]
-    simp only [expectedMemberSize_member, Member.bsize_eq h, h1, h2, if_false, hd, hlen, hk0]
+    have hk0 : ¬ k = 0 := by
+      intro h0; subst h0
+      obtain ⟨hd0, hr0, _⟩ := h.hdrOk.reads []
+      have hl0 : m.header.length = 0 := by omega
+      have hnil : m.header = [] := List.eq_nil_of_length_eq_zero hl0
+      simp only [hnil, List.append_nil] at hr0
+      simp [readHeader] at hr0
+    rw [readMember, e, hr]
+    simp only [hs, h1, h2, if_false, hdrop, hlen, hk0]
     simp [Quirks.repaired]
 
-theorem readBlock_member_prefix (c : Codec) {m : Member} (h : m.WellFramed c) (k : Nat) (hk : k < m.size) :
+theorem readBlock_member_prefix (c : Codec) {m : Member} (h : m.FramedOk c) (k : Nat) (hk : k < m.size) :
     readBlock .repaired c (m.bytes.take k) = .error (if k = 0 then .eof else .unexpectedEOF) := by
   rw [readBlock, readMember_member_prefix c h k hk]
 
@@ -175,7 +186,7 @@ theorem readAll_nil (q : Quirks) (c : Codec) : readAll q c [] = ([], .eof) := by
 theorem readAll_member_append (q : Quirks) (c : Codec) {m : Member} (h : m.WellFramed c) (t : Bytes) :
     readAll q c (m.bytes ++ t) = (m.payload ++ (readAll q c t).1, (readAll q c t).2) := by
   have hl : t.length < (m.bytes ++ t).length := by
-    rw [List.length_append, Member.bytes_length h]; simp [Member.size]
+    rw [List.length_append, Member.bytes_length h.toFramedOk]; simp [Member.size]
   rw [readAll, readBlock_member q c h t]
   simp only [hl, dite_true]
 
@@ -199,7 +210,7 @@ theorem stream_length {c : Codec} {ms : List Member} (hwf : ∀ m ∈ ms, m.Well
   induction ms with
   | nil => simp [stream, offset]
   | cons m ms ih =>
-    rw [stream_cons, List.length_append, Member.bytes_length (hwf m (by simp)), List.length_cons,
+    rw [stream_cons, List.length_append, Member.bytes_length (hwf m (by simp)).toFramedOk, List.length_cons,
       offset_cons_succ, ih (fun x hx => hwf x (by simp [hx]))]
 
 /-- The intact stream reads back completely and ends cleanly (every variant of the reader). -/
@@ -227,14 +238,14 @@ theorem readAll_take (c : Codec) {ms : List Member} (hwf : ∀ m ∈ ms, m.WellF
   | cons m ms ih =>
     have hm := hwf m (by simp)
     have hms : ∀ x ∈ ms, x.WellFramed c := fun x hx => hwf x (by simp [hx])
-    have hbl := Member.bytes_length hm
+    have hbl := Member.bytes_length hm.toFramedOk
     by_cases hlt : k < m.size
     · -- the cut is inside (or at the start of) the first member
       refine ⟨0, Nat.zero_le _, ?_, ?_, ?_⟩
       · simp [offset]
       · intro _; rw [offset_cons_succ, offset_zero]; omega
       · rw [stream_cons, List.take_append_of_le_length (by omega),
-          readAll_of_error (readBlock_member_prefix c hm k hlt)]
+          readAll_of_error (readBlock_member_prefix c hm.toFramedOk k hlt)]
         simp [data, offset]
     · -- the first member is intact
       have hk' : k - m.size ≤ (stream ms).length := by
@@ -253,7 +264,7 @@ theorem readAll_take (c : Codec) {ms : List Member} (hwf : ∀ m ∈ ms, m.WellF
 
 /-! ### member boundaries -/
 
-theorem size_pos (m : Member) : 26 ≤ m.size := by simp [Member.size]
+theorem size_pos (m : Member) : 8 ≤ m.size := by simp [Member.size]
 
 theorem offset_mono (ms : List Member) {i j : Nat} (h : i ≤ j) : offset ms i ≤ offset ms j := by
   induction ms generalizing i j with
@@ -292,7 +303,7 @@ theorem take_offset {c : Codec} {ms : List Member} (hwf : ∀ m ∈ ms, m.WellFr
     | succ j =>
       have hm := hwf m (by simp)
       rw [offset_cons_succ, List.take_succ_cons, stream_cons, stream_cons, List.take_append,
-        Member.bytes_length hm, List.take_of_length_le (by rw [Member.bytes_length hm]; omega)]
+        Member.bytes_length hm.toFramedOk, List.take_of_length_le (by rw [Member.bytes_length hm.toFramedOk]; omega)]
       rw [show m.size + offset ms j - m.size = offset ms j by omega, ih (fun x hx => hwf x (by simp [hx]))]
 
 /-! ### HasEOF -/
